@@ -616,8 +616,8 @@ func c02Combos(t encoders.Type, tier string) []c02Combo {
 		return
 	}
 	thorough := tier == "thorough"
-	xl1, xl2, xl3 := c01ClassIndex("XL-131073B-compressible"), c01ClassIndex("XL-1200000B-half-half"), c01ClassIndex("XL-2100000B-compressible")
-	small := all[:xl1]
+	xl0, xl1, xl2, xl3 := c01ClassIndex("XL-16380B-incompressible"), c01ClassIndex("XL-131073B-compressible"), c01ClassIndex("XL-1200000B-half-half"), c01ClassIndex("XL-2100000B-compressible")
+	small := all[:xl0]
 	switch t {
 	case encoders.EncoderTypeNull:
 		if thorough {
@@ -629,20 +629,20 @@ func c02Combos(t encoders.Type, tier string) []c02Combo {
 	case encoders.EncoderTypeLZ4:
 		if thorough {
 			full(seq(0, 12)...)
-			solo([]int{xl1, xl2, xl3}, 0, 1, 9, 12)
+			solo([]int{xl0, xl1, xl2, xl3}, 0, 1, 9, 12)
 		} else {
 			full(0, 12)
-			solo([]int{0, 3, 6, 9, xl2}, 1)
+			solo([]int{0, 3, 6, 9, xl0, xl2}, 1)
 		}
 	case encoders.EncoderTypeZSTD:
 		if thorough {
 			full(0, 1, 3, 19)
 			solo(small, seq(0, 19)...)
-			solo([]int{xl1, xl2, xl3}, 0, 1, 3, 6, 12, 19)
+			solo([]int{xl0, xl1, xl2, xl3}, 0, 1, 3, 6, 12, 19)
 		} else {
 			full(1)
 			solo([]int{0, 3, 6, 9, xl2}, 0, 19) // 100B / 5000B compressible, 4096B / 70000B incompressible, 1.2 MB mixed
-			solo([]int{xl1, xl3}, 0)
+			solo([]int{xl0, xl1, xl3}, 0)
 		}
 	}
 	c02ComboCache[ck] = out
@@ -880,7 +880,7 @@ func init() {
 	}
 	register("C02", &explore.Scenario{
 		ID: "C02", Name: "blocks written by one build (and appended to by a second) read back by every build", Level: "exploration",
-		Rule:  "cases = all 16 ordered pairs (A, B) of {cgo, nocgo (CGO_ENABLED=0), noliblz4, nolibzstd} x encoder {lz4, zstd, null}; per case the full product level {default, 1, max} (thorough: every level lz4 0-12, zstd 0-19) x payload alternative (quick 11, thorough 23: the C01 classes - empty, 1 B, compressible / incompressible below, at and above the 4 KiB write buffer, 70 kB - on all 8 columns or one; plus, on one column, blocks beyond the libraries' block / window sizes: 131073 B, 1.2 MB, 2.1 MB) x day layout (A = B: one block, or two blocks in two sessions; A != B: block 0 written by A, block 1 appended by B) x reader build R (4). Every process is a separate binary of that build. Oracle: R's dump (block list, timestamps, every column's decoded length and SHA-256, per-block traffic, day statistics from .blockmeta and from the directory suffix) equals the reference computed from the payloads. non-trivial = a block compressed by one implementation (liblz4 / pierrec, libzstd / klauspost) decoded by the other, distinct by (encoder, level, payload, layout, A, B, R); outcomes = distinct on-disk forms",
+		Rule:  "cases = all 16 ordered pairs (A, B) of {cgo, nocgo (CGO_ENABLED=0), noliblz4, nolibzstd} x encoder {lz4, zstd, null}; per case the full product level {default, 1, max} (thorough: every level lz4 0-12, zstd 0-19) x payload alternative (quick 11, thorough 23: the C01 classes - empty, 1 B, compressible / incompressible below, at and above the 4 KiB write buffer, 70 kB - on all 8 columns or one; plus, on one column, blocks next to the writer's 16 KiB scratch buffers (16380 B incompressible) and beyond the libraries' block / window sizes: 131073 B, 1.2 MB, 2.1 MB) x day layout (A = B: one block, or two blocks in two sessions; A != B: block 0 written by A, block 1 appended by B) x reader build R (4). Every process is a separate binary of that build. Oracle: R's dump (block list, timestamps, every column's decoded length and SHA-256, per-block traffic, day statistics from .blockmeta and from the directory suffix) equals the reference computed from the payloads. non-trivial = a block compressed by one implementation (liblz4 / pierrec, libzstd / klauspost) decoded by the other, distinct by (encoder, level, payload, layout, A, B, R); outcomes = distinct on-disk forms",
 		Cases: func(string) int { return 16 * len(c02EncTypes) },
 		Bound: func(string) int { return 0 },
 		Run:   c02BlocksRun, Setup: c02Setup, PanicSig: "", Assumptions: assume,
